@@ -110,7 +110,7 @@ Definition wf_transform (t : transform) : Prop :=
   t_type t < 256 /\ t_id t < 65536 /\ match t_keylen t with Some k => 0 < k < 65536 | None => True end.
 
 Definition wf_proposal (p : proposal) : Prop :=
-  p_num p < 256 /\ p_protocol p < 256 /\ len_of (p_spi p) < 256 /\ wf_bytes (p_spi p)
+  p_num p < 256 /\ p_protocol p < 256 /\ len_of (p_spi p) < 256
   /\ p_transforms p <> [] /\ N.of_nat (length (p_transforms p)) < 256
   /\ Forall wf_transform (p_transforms p)
   /\ 4 + len_of (rfc_proposal_body p) < 65536.
@@ -118,27 +118,26 @@ Definition wf_proposal (p : proposal) : Prop :=
 (** the address width goes with the selector type: 7 = TS_IPV4_ADDR_RANGE (4 octets), otherwise 16 octets *)
 Definition wf_selector (s : tsel) : Prop :=
   ts_type s < 256 /\ ts_proto s < 256 /\ ts_sport s < 65536 /\ ts_eport s < 65536
-  /\ wf_bytes (ts_saddr s) /\ wf_bytes (ts_eaddr s)
   /\ (if N.eqb (ts_type s) 7 then (length (ts_saddr s) = 4 /\ length (ts_eaddr s) = 4)%nat
       else (length (ts_saddr s) = 16 /\ length (ts_eaddr s) = 16)%nat).
 
 Definition wf_body (b : pbody) : Prop :=
   match b with
   | B_SA ps => ps <> [] /\ Forall wf_proposal ps
-  | B_KE g d => g < 65536 /\ wf_bytes d
-  | B_ID _ t d => t < 256 /\ wf_bytes d
-  | B_AUTH m d => m < 256 /\ wf_bytes d
-  | B_NONCE n => (16 <= length n <= 256)%nat /\ wf_bytes n
-  | B_NOTIFY p t spi d => p < 256 /\ t < 65536 /\ len_of spi < 256 /\ wf_bytes spi /\ wf_bytes d
+  | B_KE g d => g < 65536
+  | B_ID _ t d => t < 256
+  | B_AUTH m d => m < 256
+  | B_NONCE n => (16 <= length n <= 256)%nat
+  | B_NOTIFY p t spi d => p < 256 /\ t < 65536 /\ len_of spi < 256
   | B_DELETE p spis =>
-      p < 256 /\ N.of_nat (length spis) < 65536 /\ Forall wf_bytes spis
+      p < 256 /\ N.of_nat (length spis) < 65536
       /\ match spis with
          | s :: _ => len_of s < 256 /\ Forall (fun x => length x = length s) spis
          | [] => True
          end
-  | B_VENDOR v => v <> [] /\ wf_bytes v
+  | B_VENDOR v => v <> []
   | B_TS _ sels => N.of_nat (length sels) < 256 /\ Forall wf_selector sels
-  | B_SK c n => n < 256 /\ wf_bytes c
+  | B_SK c n => n < 256
   end.
 
 Definition is_sk (p : payload) : bool := match pl_body p with B_SK _ _ => true | _ => false end.
@@ -154,7 +153,47 @@ Fixpoint wf_chain (ps : list payload) : Prop :=
   end.
 
 Definition wf_msg (m : message) : Prop :=
-  length (m_spi_i m) = 8%nat /\ length (m_spi_r m) = 8%nat /\ wf_bytes (m_spi_i m) /\ wf_bytes (m_spi_r m)
+  length (m_spi_i m) = 8%nat /\ length (m_spi_r m) = 8%nat
   /\ m_major m < 16 /\ m_minor m < 16 /\ m_exchange m < 256 /\ m_id m < 4294967296
   /\ wf_chain (m_payloads m) /\ 28 + len_of (rfc_chain (m_payloads m)) < 4294967296
   /\ m_enc_payloads m = [] /\ m_iv m = None /\ m_authenticated m = false.
+
+(* ------------------------------------------------------------------------------------------ *)
+(** * IANA "Internet Key Exchange Version 2 (IKEv2) Parameters" (literal registry excerpts) *)
+From Coq Require Import String.
+Open Scope string_scope.
+
+Definition iana_payload_types : list (N * string) :=
+  [(0, "NONE"); (33, "SA"); (34, "KE"); (35, "IDi"); (36, "IDr"); (37, "CERT"); (38, "CERTREQ"); (39, "AUTH");
+   (40, "NONCE"); (41, "NOTIFY"); (42, "DELETE"); (43, "VENDOR"); (44, "TSi"); (45, "TSr"); (46, "SK"); (47, "CP");
+   (48, "EAP")].
+Definition iana_exchange_types : list (N * string) :=
+  [(34, "IKE_SA_INIT"); (35, "IKE_AUTH"); (36, "CREATE_CHILD_SA"); (37, "INFORMATIONAL")].
+Definition iana_transform_types : list (N * string) :=
+  [(1, "ENCR"); (2, "PRF"); (3, "INTEG"); (4, "DH"); (5, "ESN")].
+Definition iana_protocol_ids : list (N * string) := [(0, "NONE"); (1, "IKE"); (2, "AH"); (3, "ESP")].
+Definition iana_ts_types : list (N * string) := [(7, "TS_IPV4_ADDR_RANGE"); (8, "TS_IPV6_ADDR_RANGE")].
+Definition iana_notify_types : list (N * string) :=
+  [(1, "UNSUPPORTED_CRITICAL_PAYLOAD"); (4, "INVALID_IKE_SPI"); (5, "INVALID_MAJOR_VERSION"); (7, "INVALID_SYNTAX");
+   (9, "INVALID_MESSAGE_ID"); (11, "INVALID_SPI"); (14, "NO_PROPOSAL_CHOSEN"); (17, "INVALID_KE_PAYLOAD");
+   (24, "AUTHENTICATION_FAILED"); (34, "SINGLE_PAIR_REQUIRED"); (35, "NO_ADDITIONAL_SAS");
+   (36, "INTERNAL_ADDRESS_FAILURE"); (37, "FAILED_CP_REQUIRED"); (38, "TS_UNACCEPTABLE"); (39, "INVALID_SELECTORS");
+   (43, "TEMPORARY_FAILURE"); (44, "CHILD_SA_NOT_FOUND"); (16384, "INITIAL_CONTACT"); (16385, "SET_WINDOW_SIZE");
+   (16386, "ADDITIONAL_TS_POSSIBLE"); (16387, "IPCOMP_SUPPORTED"); (16388, "NAT_DETECTION_SOURCE_IP");
+   (16389, "NAT_DETECTION_DESTINATION_IP"); (16390, "COOKIE"); (16391, "USE_TRANSPORT_MODE");
+   (16392, "HTTP_CERT_LOOKUP_SUPPORTED"); (16393, "REKEY_SA"); (16394, "ESP_TFC_PADDING_NOT_SUPPORTED");
+   (16395, "NON_FIRST_FRAGMENTS_ALSO")].
+Definition iana_id_types : list (N * string) :=
+  [(1, "ID_IPV4_ADDR"); (2, "ID_FQDN"); (3, "ID_RFC822_ADDR"); (5, "ID_IPV6_ADDR"); (9, "ID_DER_ASN1_DN");
+   (10, "ID_DER_ASN1_GN"); (11, "ID_KEY_ID")].
+Definition iana_auth_methods : list (N * string) := [(1, "RSA"); (2, "PSK"); (3, "DSS")].
+(** Transform Attribute Types: 14 = Key Length, sent in TV format (AF bit 0x8000) *)
+Definition iana_attr_key_length : N := 14.
+Definition rfc_af_bit : N := 32768.
+(** last substructure markers: 0 = last, 2 = more proposals, 3 = more transforms *)
+Definition rfc_more_proposal : N := 2.
+Definition rfc_more_transform : N := 3.
+(** header flag bits and version nibbles *)
+Definition rfc_flag_response : N := 32.
+Definition rfc_flag_version : N := 16.
+Definition rfc_flag_initiator : N := 8.
